@@ -75,10 +75,14 @@ inline void onAlarm(int) { fatalEvent("hang"); _exit(3); }
 inline void onTerminate() { fatalEvent("terminate"); _exit(4); }
 inline void armWatchdog(unsigned seconds) { std::signal(SIGALRM, onAlarm); alarm(seconds); }
 
+// ---- fault injection hooks (defined for real in fault.h; harness bookkeeping suspends them)
+static int g_faultSuspend = 0;
+struct NoFault { NoFault() { ++g_faultSuspend; } ~NoFault() { --g_faultSuspend; } };
+
 // ---- tracked callback: identity + registry of live addresses (double destruction / use after destruction)
 static std::set<const void *> g_registry;
-inline void regAdd(const void * p) { if(! g_registry.insert(p).second) fatalEvent("double-construct"); }
-inline void regDel(const void * p) { if(g_registry.erase(p) != 1) fatalEvent("double-destroy"); }
+inline void regAdd(const void * p) { NoFault nf; if(! g_registry.insert(p).second) fatalEvent("double-construct"); }
+inline void regDel(const void * p) { NoFault nf; if(g_registry.erase(p) != 1) fatalEvent("double-destroy"); }
 inline void regUse(const void * p) { if(g_registry.count(p) != 1) fatalEvent("use-after-destroy"); }
 
 } // namespace vf
